@@ -211,7 +211,40 @@ _get_global_filters = [
 for _c, _d in zip(_get_global_filters, range(1, 4)):
     _c.shape = {'CH': _d}
 
+def _replay_big(inp):
+    from pyvc.replay import run_real
+    from jedi.inference.helpers import is_big_annoying_library
+
+    class Root:
+        string_names = None if inp['names'] is None else tuple(inp['names'])
+
+    class Ctx:
+        def get_root_context(self):
+            return Root()
+    out = run_real(lambda: is_big_annoying_library(Ctx()))
+    return {'NAMES': inp['names']}, out
+
+
+_big_lib = Contract(
+    id='C03.is_big_annoying_library', prop='C03',
+    clause='flow analysis (last reachable definition wins) is only given up inside the four named third-party '
+           'libraries themselves, i.e. for modules whose TOP-LEVEL package is one of them - never for user modules that '
+           'merely have such a name somewhere in their dotted path, and never for path-less buffers',
+    file='jedi/inference/helpers.py', qualname='is_big_annoying_library',
+    params={'context': Obj('CtxBig')}, families=['CtxBig', 'RootBig'], ret=BOOL,
+    requires=['context.get_root_context().string_names is None or len(the(context.get_root_context().string_names)) >= 1'],
+    ensures=['result == (context.get_root_context().string_names is not None and '
+             'the(context.get_root_context().string_names)[0] in ("pandas", "numpy", "tensorflow", "matplotlib"))'],
+    witness={'names': 'context.get_root_context().string_names'}, replay=_replay_big,
+    concrete_ensures=['result == (NAMES is not None and NAMES[0] in ("pandas", "numpy", "tensorflow", "matplotlib"))'],
+    concrete_only=True,
+    witness_library=[{'names': None}, {'names': ['numpy']}, {'names': ['numpy', 'core']}, {'names': ['acme', 'numpy']},
+                     {'names': ['acme', '_vendor', 'pandas', 'compat']}, {'names': ['mymod']}],
+)
+
 FAMILIES = [
+    Family('CtxBig', methods={'get_root_context': FnSpec('Context.get_root_context', ret=Obj('RootBig'), pure=True)}),
+    Family('RootBig', attrs={'string_names': Opt(Seq(STR))}),
     Family('Filter', attrs={'_until_position': Opt(POS), '_parso_cache_node': ANY, '_parser_scope': _PN,
                             '_node_context': ANY, '_origin_scope': Opt(_PN)}),
     Family('Ctx', attrs={'parent_context': Opt(Obj('Ctx')), 'inference_state': Obj('InfState03'), 'tree_node': _PN},
@@ -232,7 +265,7 @@ FAMILIES = [
     Family('FilterObj'),
 ]
 
-CONTRACTS = [_is_scope] + PARENT_SCOPE + [_abs_filter, _global_filter, _reachable, _check_flows] + _get_global_filters
+CONTRACTS = [_is_scope] + PARENT_SCOPE + [_abs_filter, _global_filter, _reachable, _check_flows] + _get_global_filters + [_big_lib]
 
 
 def register(reg):
